@@ -456,7 +456,9 @@ pub fn probe_check(a: &Analysis, scn: &Scenario, prop: &'static str) -> Vec<Viol
 }
 
 pub fn c06(a: &Analysis, scn: &Scenario) -> Vec<Violation> {
-    probe_check(a, scn, "C06")
+    let mut out = probe_check(a, scn, "C06");
+    out.extend(isolated_calls(a, scn, "C06"));
+    out
 }
 
 // =========================================================================== C07
@@ -708,9 +710,18 @@ pub fn c18(a: &Analysis, o: &RunOutcome) -> Vec<Violation> {
         }
     }
     if matches!(o.end, End::Livelock | End::Deadlock) {
-        if let Some(&i) = a.open_recs().iter().find(|&&i| matches!(a.recs[i].op, OpK::TrySend | OpK::TryRecv | OpK::TryRecvView)) {
-            let r = &a.recs[i];
-            out.push(v("C18", "try_op_waits", &site_of(r), format!("a try operation never returned ({}): {}", o.end.name(), fmt_rec(r))));
+        // only the call of the task that was running alone counts: the frozen tasks' calls
+        // are open by construction
+        if let Some(st) = o.solo_task {
+            if let Some(&i) = a.open_recs().iter().find(|&&i| a.recs[i].task as usize == st && matches!(a.recs[i].op, OpK::TrySend | OpK::TryRecv | OpK::TryRecvView)) {
+                let r = &a.recs[i];
+                out.push(v(
+                    "C18",
+                    "try_op_waits",
+                    &site_of(r),
+                    format!("with every other thread frozen the call never returned ({} after {} steps): {}", o.end.name(), o.stats.steps, fmt_rec(r)),
+                ));
+            }
         }
     }
     out
@@ -741,7 +752,11 @@ pub fn c15(a: &Analysis, scn: &Scenario, o: &RunOutcome) -> Vec<Violation> {
     }
     if matches!(o.end, End::Livelock | End::Deadlock) {
         let open = a.open_recs();
-        if let Some(&i) = open.iter().find(|&&i| matches!(a.recs[i].op, OpK::Poll | OpK::StartSend)) {
+        let pick = open
+            .iter()
+            .find(|&&i| Some(a.recs[i].task as usize) == o.solo_task && matches!(a.recs[i].op, OpK::Poll | OpK::StartSend))
+            .or_else(|| open.iter().find(|&&i| o.solo_task.is_none() && matches!(a.recs[i].op, OpK::Poll | OpK::StartSend)));
+        if let Some(&i) = pick {
             let r = &a.recs[i];
             let class = if r.op == OpK::Poll { "poll_waits" } else { "start_send_waits" };
             out.push(v("C15", class, &site_of(r), format!("the call never returned ({} after {} steps): {}", o.end.name(), o.stats.steps, fmt_rec(r))));
@@ -753,6 +768,14 @@ pub fn c15(a: &Analysis, scn: &Scenario, o: &RunOutcome) -> Vec<Violation> {
             // blocking receive that never returns is not what the plain handle does
             let st = stuck_info(a, o);
             out.push(v("C15", "direct_recv_never_returns", &site_of(&a.recs[i]), st.text));
+        }
+    }
+    if scn.seq.is_none() {
+        // a Stream yields None only at the end of the stream and forever after
+        for mut x in c07(a, scn) {
+            x.class = format!("{}_{}", x.prop, x.class);
+            x.prop = "C15";
+            out.push(x);
         }
     }
     if a.complete && scn.seq.is_none() {
@@ -1077,6 +1100,124 @@ pub fn c17(o: &RunOutcome) -> Vec<Violation> {
                 "churn",
                 format!("live bytes grew from at most {} (cycles {}..{}) to {} (cycles {}..{}) while a fixed set of handles kept operating", early, c / 8, c / 4, late, c / 2, c),
             ));
+        }
+    }
+    out
+}
+
+// ================================================================ isolated-call oracle
+
+/// A call that overlaps no other call on the queue sees a quiescent queue, so its result
+/// must be exactly what the reference model predicts (C06: a spurious Full/Empty can only
+/// happen while another thread is in the middle of an operation). This also catches
+/// states that never reach the quiescent probe because a retry loop cannot finish.
+pub fn isolated_calls(a: &Analysis, scn: &Scenario, prop: &'static str) -> Vec<Violation> {
+    let mut out = Vec::new();
+    let n = scn.queue.capacity() as i64;
+    let recs = a.recs;
+    // recs are in invoke order; prefix maximum of return stamps (open = infinity)
+    let mut prefix_max_ret = Vec::with_capacity(recs.len());
+    let mut m = 0u64;
+    for r in recs {
+        prefix_max_ret.push(m);
+        if r.op != OpK::Create {
+            m = m.max(if r.t_ret == 0 { u64::MAX } else { r.t_ret });
+        }
+    }
+    let acc_rets: Vec<u64> = a.accepted_by_ret.iter().map(|&i| recs[i].t_ret).collect();
+    for (i, r) in recs.iter().enumerate() {
+        if r.phase != 0 || r.t_ret == 0 || !matches!(r.op, OpK::TrySend | OpK::TryRecv | OpK::TryRecvView) {
+            continue;
+        }
+        if prefix_max_ret[i] > r.t_inv {
+            continue;
+        }
+        if let Some(nx) = recs.get(i + 1) {
+            if nx.t_inv < r.t_ret {
+                continue;
+            }
+        }
+        // exact model state at this instant
+        let acc = acc_rets.partition_point(|&t| t < r.t_inv) as i64;
+        let mut exact = true;
+        let mut min_pos: Option<i64> = None;
+        let mut my_pos: Option<i64> = None;
+        for (sid, s) in &a.streams {
+            let born = s.add_ret != 0 && s.add_ret < r.t_inv;
+            let gone = s.gone_ret.map(|g| g < r.t_inv).unwrap_or(false);
+            let leaving = s.gone_inv.map(|g| g < r.t_ret).unwrap_or(false);
+            if !born {
+                if s.add_inv < r.t_ret && s.add_ret == 0 {
+                    exact = false;
+                }
+                continue;
+            }
+            if gone {
+                continue;
+            }
+            if leaving {
+                exact = false;
+                continue;
+            }
+            let (lo, hi) = a.start_bounds(*sid);
+            if lo != hi {
+                exact = false;
+                continue;
+            }
+            let rcv = s.deliveries.iter().filter(|&&d| recs[d].t_ret != 0 && recs[d].t_ret < r.t_inv).count() as i64;
+            let pos = lo as i64 + rcv;
+            min_pos = Some(min_pos.map(|m: i64| m.min(pos)).unwrap_or(pos));
+            if *sid == r.stream {
+                my_pos = Some(pos);
+            }
+        }
+        if !exact {
+            continue;
+        }
+        if r.op == OpK::TrySend {
+            let mp = match min_pos {
+                Some(p) => p,
+                None => continue,
+            };
+            let outstanding = acc - mp;
+            if r.res == Res::Full && outstanding < n {
+                out.push(v(
+                    prop,
+                    "stuck_full",
+                    "try_send",
+                    format!("no other call was in flight and the slowest stream had {} < N = {} outstanding, yet the send was refused: {}", outstanding, n, fmt_rec(r)),
+                ));
+                break;
+            }
+            if r.res == Res::Ok && outstanding >= n {
+                out.push(v(
+                    prop,
+                    "extra_capacity",
+                    "try_send",
+                    format!("no other call was in flight and the slowest stream had {} >= N = {} outstanding, yet the send was accepted: {}", outstanding, n, fmt_rec(r)),
+                ));
+                break;
+            }
+        } else if let Some(pos) = my_pos {
+            let outstanding = acc - pos;
+            if r.res == Res::Empty && outstanding > 0 {
+                out.push(v(
+                    prop,
+                    "stuck_empty",
+                    &site_of(r),
+                    format!("no other call was in flight and stream s{} had {} completely sent value(s) outstanding, yet the receive found nothing: {}", r.stream, outstanding, fmt_rec(r)),
+                ));
+                break;
+            }
+            if matches!(r.res, Res::Val(_)) && outstanding <= 0 {
+                out.push(v(
+                    prop,
+                    "wrong_values",
+                    &site_of(r),
+                    format!("no other call was in flight and stream s{} had nothing outstanding, yet the receive delivered a value: {}", r.stream, fmt_rec(r)),
+                ));
+                break;
+            }
         }
     }
     out
